@@ -57,6 +57,7 @@ def callee_kind(name):
 # degrees of scalar float parameters of local helpers, inferred from the arguments at their call sites (fixpoint in check_degrees)
 PARAM_DEG = {}
 CUR_FN = [None]
+CUR_BODY = [None]
 
 
 def degree(v):
@@ -78,6 +79,17 @@ def degree(v):
     if k == 'field' and strip_upd(x[1])[0] == 'param' and strip_upd(x[1])[1] == 1 and '{closure' in (CUR_FN[0] or ''):
         # a value captured by a closure: the degree of what was captured where the closure was made
         return PARAM_DEG.get((CUR_FN[0], ('env', str(x[2]))), NA)
+    if k == 'field' and strip_upd(x[1])[0] == 'param' and CUR_BODY[0] is not None and x[2] not in ('x', 'y'):
+        # a float field of a parameter of a local struct type: the degree every construction of that struct gives the field
+        pi = strip_upd(x[1])[1]
+        if isinstance(pi, int) and pi < len(CUR_BODY[0].locals):
+            ty = CUR_BODY[0].locals[pi]['ty'].lstrip('&').split('<')[0]
+            d = PARAM_DEG.get(('struct', ty.split('::')[-1], str(x[2])))
+            if d is not None:
+                return d
+    if k == 'field' and strip_upd(x[1])[0] == 'agg' and strip_upd(x[1])[1] == 'adt' and x[2] in strip_upd(x[1])[3]:
+        inner = strip_upd(x[1])
+        return degree(inner[4][list(inner[3]).index(x[2])])
     if k == 'field' and x[2] in ('x', 'y'):
         inner = strip_upd(x[1])
         if inner[0] == 'agg' and len(inner[4]) == 2:
@@ -279,7 +291,21 @@ def check_degrees(ctx, rep, rule='R-degree'):
         seen_deg = {}
         for (name, bb, ps) in todo:
             CUR_FN[0] = name
+            CUR_BODY[0] = bb
             for p in ps:
+                # local structs of float fields: every construction gives each field a degree
+                vals_ = [a for e in p.events if e['k'] == 'call' for a in e['args']] + [e['val'] for e in p.events if e['k'] == 'store'] + \
+                    ([p.ret] if p.ret is not None else [])
+                for v_ in vals_:
+                    for y in sym.walk(v_):
+                        if y[0] == 'agg' and y[1] == 'adt' and y[3] and y[5].startswith('boolean::') and len(y[3]) == len(y[4]):
+                            for fn_, fv_ in zip(y[3], y[4]):
+                                try:
+                                    d = degree(fv_)
+                                except DegreeError:
+                                    continue
+                                if d not in (NA, POLY):
+                                    seen_deg.setdefault(('struct', y[5].split('::')[-1], str(fn_)), set()).add(d)
                 for e in p.events:
                     if e['k'] == 'call':
                         # closures built on this path: what each captures (by value, or by reference to a local of this body)
@@ -317,11 +343,13 @@ def check_degrees(ctx, rep, rule='R-degree'):
     stats['helper parameters with inferred degree'] = len(PARAM_DEG)
     for (name, bb, ps) in todo:
         CUR_FN[0] = name
+        CUR_BODY[0] = bb
         rep.analysed.add(name)
         rep.paths_enumerated += len(ps)
         stats['bodies'] += 1
         check_body(rep, rule, bb, ps, stats)
     CUR_FN[0] = None
+    CUR_BODY[0] = None
     rep.info['R-degree'] = dict(stats)
     rep.floor(rule, 'float comparison sites', stats['cmp'], 40)
     rep.floor(rule, 'coordinate construction / store sites', stats['coord'], 12)
